@@ -8,6 +8,9 @@ pub enum Path {
     Lit,
     /// every int / binary leaf computed by a builtin (binaries end up on the heap); nil / Ok from a match
     Comp,
+    /// a binary of three or more bytes concatenated at another split point than `Comp` uses (two
+    /// unflattened ropes with the same bytes and different shapes)
+    Comp2,
     /// rebuilt by spread from a tuple with another name: `A[...t]`
     Spread,
     /// first field spread from a 1-tuple, second written: `A[...t, f]`
@@ -42,6 +45,7 @@ pub enum Path {
 pub const ALL_PATHS: &[Path] = &[
     Path::Lit,
     Path::Comp,
+    Path::Comp2,
     Path::Spread,
     Path::SpreadTail,
     Path::Gid,
@@ -63,6 +67,7 @@ impl Path {
         match self {
             Path::Lit => "literal",
             Path::Comp => "computed",
+            Path::Comp2 => "computed-other-split",
             Path::Spread => "spread",
             Path::SpreadTail => "spread+field",
             Path::Gid => "generic-identity",
@@ -95,6 +100,7 @@ impl Path {
         match self {
             Path::Lit | Path::Gid | Path::Uni | Path::Fld | Path::Clo | Path::Rem | Path::Cap => !repl,
             Path::Comp => comp(v).is_some(),
+            Path::Comp2 => matches!(v, Val::Bin(b) if b.len() >= 3),
             Path::Spread => matches!(arity, Some(n) if n >= 1),
             Path::SpreadTail => arity == Some(2),
             Path::Gmk => matches!(arity, Some(1) | Some(2)),
@@ -148,6 +154,11 @@ pub fn build(v: &Val, path: Path, tag: &str, uni: Option<&UniRef>) -> Built {
     match path {
         Path::Lit => b.expr = l,
         Path::Comp => b.expr = comp(v).expect("comp applies"),
+        Path::Comp2 => {
+            let Val::Bin(bytes) = v else { unreachable!() };
+            let n = bytes.len();
+            b.expr = format!("[{}, {}] __binary_concat__", lit(&Val::Bin(bytes[..n - 1].to_vec())), lit(&Val::Bin(bytes[n - 1..].to_vec())));
+        }
         Path::Spread => {
             let Val::Tup(n, f) = v else { unreachable!() };
             let src = Val::Tup(Some(other_name(n)), f.clone());
